@@ -209,6 +209,7 @@ def fmt_many(sources, trees=False, keep_text=True, timeout=30.0, use_cache=True)
     for i, s in enumerate(sources):
         tr = bool(tl[i]) if tl is not None else bool(trees)
         key = (s, tr)
+        kt = keep_text or "///" in s  # doc comments: the text is needed for the anchor check
         if use_cache and key in _CACHE:
             out[i] = _CACHE[key]
             STATS["cache_hits"] += 1
@@ -217,13 +218,15 @@ def fmt_many(sources, trees=False, keep_text=True, timeout=30.0, use_cache=True)
             ask[key].append(i)
             continue
         ask[key] = [i]
-        jobs.append({"id": len(jobs), "op": "fmt", "src": s, "keep_text": keep_text, "trees": tr})
+        jobs.append({"id": len(jobs), "op": "fmt", "src": s, "keep_text": kt, "trees": tr})
     keys = list(ask.keys())
     res = run_raw(jobs, timeout=timeout)
     for jid, key in enumerate(keys):
         raw = res.get(jid)
         r = Res(raw if raw is not None else b'{"harness_error":"no result"}')
-        if use_cache and len(key[0]) < 4000:
+        if use_cache and len(key[0]) < 4000 and len(r.raw) < 6000:
+            if len(_CACHE) > 400000:
+                _CACHE.clear()
             _CACHE[key] = r
         for i in ask[key]:
             out[i] = r
